@@ -71,6 +71,9 @@ Fixpoint keys_eqb (a b : list Z) : bool :=
 (** * impl Add<Months> / Sub<Months> for DateTime<Tz>: [checked_{add,sub}_months(rhs).expect(..)] *)
 Definition dz_op_add_months (a : dtz) (m : Z) : R dtz := unwrap_r (dz_checked_add_months a m).
 Definition dz_op_sub_months (a : dtz) (m : Z) : R dtz := unwrap_r (dz_checked_sub_months a m).
+(** * impl Add<Days> / Sub<Days> for DateTime<Tz>: [checked_{add,sub}_days(rhs).expect(..)] *)
+Definition dz_op_add_days (a : dtz) (n : Z) : R dtz := unwrap_r (dz_checked_add_days a n).
+Definition dz_op_sub_days (a : dtz) (n : Z) : R dtz := unwrap_r (dz_checked_sub_days a n).
 (** [From<DateTime<FixedOffset>> for DateTime<Utc>]: [src.with_timezone(&Utc)];
     [From<DateTime<Utc>> for DateTime<FixedOffset>]: [src.with_timezone(&FixedOffset::east_opt(0).unwrap())] *)
 Definition dz_into_utc (a : dtz) : dtz := with_timezone a 0.
@@ -249,5 +252,15 @@ Definition run (op : bytes) (args : list val) : val :=
                 | Some off, Some l =>
                     val_of_R enc_dtz (let* u := unwrap_r (ndt_checked_sub_offset l off) in Val (mk_dtz u off))
                 | _, _ => VBad end
+    | _ => VBad end
+  (* impl Add<Days> / Sub<Days> for DateTime<Tz>: checked_add_days(rhs) / checked_sub_days(rhs) .expect(..) *)
+  else if op_is op "z.opdays" then
+    match args with
+    | [a; VInt sign; n] =>
+        match dec_dtz a, arg_u64 n with
+        | Some x, Some k =>
+            if sign =? 1 then val_of_R enc_dtz (dz_op_add_days x k)
+            else if sign =? -1 then val_of_R enc_dtz (dz_op_sub_days x k) else VBad
+        | _, _ => VBad end
     | _ => VBad end
   else VErr B"NOOP".
